@@ -52,3 +52,8 @@ type GOne[T any] interface {
 	One(t T) T
 	None()
 }
+
+// GLower spells its type parameters in lower case (they must be kept verbatim).
+type GLower[k any, v any] interface {
+	Do(a k) v
+}
